@@ -431,8 +431,22 @@ void mmd_export_header_itmz(DString * out, const char * source, token * t, scrat
 
 		while (walker) {
 			switch (walker->type) {
+				case TEXT_PLAIN:
+					if (walker->len) {
+						// Text of the header
+						stop = walker->start + walker->len;
+						walker = NULL;
+					} else {
+						// Whitespace that a writer has trimmed away already
+						walker = walker->prev;
+					}
+
+					break;
+
 				case TEXT_NL:
 				case TEXT_NL_SP:
+				case TEXT_LINEBREAK:
+				case TEXT_LINEBREAK_SP:
 				case INDENT_TAB:
 				case INDENT_SPACE:
 				case NON_INDENT_SPACE:
